@@ -191,7 +191,7 @@ func c17Pair(c *rt.Ctx, fsType string, h int) {
 	if lv.OSType() != avfs.OsLinux || wv.OSType() != avfs.OsWindows {
 		return // reported by c17Construction
 	}
-	cfg := gen.Cfg{Root: "/w", Names: []string{"a", "b", "c"}, Depth: 3, Links: true, Chdir: true, Handles: true}
+	cfg := gen.Cfg{Root: "/w", Names: []string{"a", "ab", "c"}, Depth: 3, NoChange: true, Links: true, Chdir: true, Handles: true}
 	if fsType == "MemFS" {
 		cfg.Symlinks = true
 	}
@@ -254,6 +254,12 @@ func c17Pair(c *rt.Ctx, fsType string, h int) {
 		}
 		if ap, err := lv.Abs(o.P); (o.K == "Remove" || o.K == "Rename") && (err != nil || ap == "/w" || ap == "/") {
 			continue // the compared subtree itself stays (RemoveAll of it, or of the root, is allowed: see below)
+		}
+		if o.K == "Chtimes" && o.N == -1 {
+			// both times omitted: Linux returns at once without looking the file up, Windows opens it first. Each sibling
+			// follows its OS.
+			c.Rep.Count("chtimes_zero_times_os_specific", 1)
+			continue
 		}
 		if o.K == "Rename" && lv.Clean(o.P) == lv.Clean(o.Q) {
 			// os.Rename of a directory onto its own spelling fails on Unix (Go's own pre-check) and succeeds on Windows:
